@@ -571,3 +571,138 @@ Proof.
   cbn. destruct (nth_error (sp_objs (spec_final qf h)) j); reflexivity.
 Qed.
 End Hist.
+
+(* ------------------------------------------------------------------ refutations for PART A (concrete histories) *)
+Definition qf_sum : qfn := fun q m a => [fold_right Z.add 0%Z a; Z.of_nat q].
+Local Open Scope Z_scope.
+Definition mask3 := [false; true; false].
+
+(* D8 (present): MapperValued.values_masked zeroes the caller's `values` *)
+Definition hist_D8 : list op := [ONew [5; 6; 7]; OValued 0 mask3; OValuesMasked 0; OPeekIn 0].
+(* D10 (present): is_uniform / amplitudes read, then x * 2 reports the cached value of x *)
+Definition hist_D10 : list op := [ONew [1; 2; 3]; OConstruct (SIn 0) [false; false; false] false false; ORead 0 1; OArith 0 2; ORead 1 1].
+(* D11 (present): grids read, then the trimmed dataset reports the untrimmed grids *)
+Definition hist_D11 : list op :=
+  [ONew [1; 2; 3; 4]; OConstruct (SIn 0) [false; false; false; false] true true; OAlias 0; ORead 1 7;
+   OTrim 1 [false; true; true; false]; ORead 2 7].
+(* D12 (present): an interferometer inversion flips use_w_tilde on the settings object it was given *)
+Definition hist_D12 : list op := [ONew [1]; OImaging 0; OInterf 0; OImaging 0].
+(* D7 (repaired; policy of the seeded revert): Grid2D(values=native) zeroes the caller's array *)
+Definition policy_D7 : policy := mkPolicy false true true true true true.
+Definition hist_D7 : list op := [ONew [5; 6; 7]; OConstruct (SIn 0) mask3 true false; OPeekIn 0].
+(* D9 (repaired; policy of the seeded revert): mapped_reconstructed_image_from zeroes the cached mapping matrix *)
+Definition policy_D9 : policy := mkPolicy true true true true false true.
+Definition qf_mm : qfn := fun q m a => [1; 0; 0; 0; 1; 0; 0; 0; 1].
+Definition hist_D9 : list op :=
+  [ONew [1; 2; 3]; OConstruct (SIn 0) [false; false; false] false false; ONew [5; 6; 7]; OValued 1 mask3;
+   OMapRecon 1 0 0; ORead 0 0].
+
+Lemma purity_refuted_D8 : observations qf_sum faithful hist_D8 <> spec_observations qf_sum hist_D8
+  /\ map (hget (st_heap (final qf_sum faithful hist_D8))) (st_inputs (final qf_sum faithful hist_D8)) <> news hist_D8.
+Proof. split; vm_compute; discriminate. Qed.
+Lemma purity_refuted_D10 : observations qf_sum faithful hist_D10 <> spec_observations qf_sum hist_D10.
+Proof. vm_compute; discriminate. Qed.
+Lemma purity_refuted_D11 : observations qf_sum faithful hist_D11 <> spec_observations qf_sum hist_D11.
+Proof. vm_compute; discriminate. Qed.
+Lemma purity_refuted_D12 : observations qf_sum faithful hist_D12 <> spec_observations qf_sum hist_D12
+  /\ map (hget (st_heap (final qf_sum faithful hist_D12))) (st_inputs (final qf_sum faithful hist_D12)) <> news hist_D12.
+Proof. split; vm_compute; discriminate. Qed.
+Lemma purity_refuted_D7_revert : observations qf_sum policy_D7 hist_D7 <> spec_observations qf_sum hist_D7.
+Proof. vm_compute; discriminate. Qed.
+Lemma purity_refuted_D9_revert : observations qf_mm policy_D9 hist_D9 <> spec_observations qf_mm hist_D9.
+Proof. vm_compute; discriminate. Qed.
+(* the same histories are in the finding classes, and the repaired sites are not *)
+Lemma refutations_are_in_finding_classes :
+  avoids_findings qf_sum hist_D8 = false /\ avoids_findings qf_sum hist_D10 = false /\
+  avoids_findings qf_sum hist_D11 = false /\ avoids_findings qf_sum hist_D12 = false /\
+  avoids_findings qf_sum hist_D7 = true /\ run_ok qf_sum faithful hist_D7 = true /\
+  observations qf_sum faithful hist_D7 = spec_observations qf_sum hist_D7.
+Proof. vm_compute. repeat split. Qed.
+Local Close Scope Z_scope.
+
+(* ------------------------------------------------------------------ PART B *)
+Section B.
+Context (add : adder) (F H : arr).
+
+Definition iinv (st : istate) : Prop :=
+  (0 < length (i_heap st))%nat /\ hget (i_heap st) 0 = F /\
+  (forall c, i_cF st = Some c -> (0 < c < length (i_heap st))%nat /\ hget (i_heap st) c = F) /\
+  (forall c, i_cFR st = Some c -> (0 < c < length (i_heap st))%nat /\ hget (i_heap st) c = add F H).
+
+Lemma iinv0 : iinv (ist0 F).
+Proof. repeat split; cbn; try lia; try discriminate. Qed.
+
+Lemma iread_F_inv preload st :
+  iinv st -> let r := iread_F ifaithful preload F st in
+  iinv (fst r) /\ i_cF (fst r) = Some (snd r) /\ i_cFR (fst r) = i_cFR st.
+Proof.
+  intros (Hl & H0 & HF & HFR). unfold iread_F.
+  destruct (i_cF st) as [c|] eqn:Ec.
+  - cbn. split; [|split; [exact Ec | reflexivity]]. split; [exact Hl|]. split; [exact H0|]. split; [|exact HFR].
+    intros c0 Hc0. rewrite Ec in Hc0. apply HF. exact Hc0.
+  - assert (Hgen : forall v, v = F ->
+      iinv (mkIState (i_heap st ++ [v]) (Some (length (i_heap st))) (i_cFR st))).
+    { intros v ->. unfold iinv. cbn [i_heap i_cF i_cFR]. split; [rewrite app_length; cbn; lia|].
+      split; [rewrite hget_app_old by lia; exact H0|]. split.
+      - intros c Hc. inversion Hc; subst. split; [rewrite app_length; cbn; lia | apply hget_app_new].
+      - intros c Hc. destruct (HFR c Hc) as [Hr Hv]. split; [rewrite app_length; cbn; lia|].
+        rewrite hget_app_old by lia. exact Hv. }
+    destruct preload; cbn [ifaithful ip_preload_copied]; unfold halloc; cbn [fst snd].
+    + split; [apply Hgen; exact H0 | split; reflexivity].
+    + split; [apply Hgen; reflexivity | split; reflexivity].
+Qed.
+
+Lemma istep_inv preload st q :
+  iinv st -> iinv (fst (istep add ifaithful preload F H st q)) /\ snd (istep add ifaithful preload F H st q) = ispec add F H q.
+Proof.
+  intros Hi. pose proof Hi as (Hl & H0 & HF & HFR). destruct q; cbn [istep ispec].
+  - pose proof (iread_F_inv preload st Hi) as Hr. cbn zeta in Hr.
+    destruct (iread_F ifaithful preload F st) as [st1 c]. cbn [fst snd] in *. destruct Hr as (Hi1 & Hc & _).
+    split; [exact Hi1|]. destruct Hi1 as (_ & _ & HF1 & _). now destruct (HF1 c Hc).
+  - destruct (i_cFR st) as [c|] eqn:Ec.
+    + cbn. split; [exact Hi|]. now destruct (HFR c eq_refl).
+    + pose proof (iread_F_inv preload st Hi) as Hr. cbn zeta in Hr.
+      destruct (iread_F ifaithful preload F st) as [st1 c]. cbn [fst snd] in *. destruct Hr as (Hi1 & Hc & HcFR).
+      destruct Hi1 as (Hl1 & H01 & HF1 & HFR1). destruct (HF1 c Hc) as [Hcr Hcv].
+      cbn [ifaithful ip_entry_deleted fst snd]. rewrite Hcv.
+      split; [|apply hget_hset_same; lia].
+      split; [cbn; rewrite hset_length; lia|]. cbn [i_heap i_cF i_cFR].
+      split; [rewrite hget_hset_other by lia; exact H01|]. split; [discriminate|].
+      intros c' Hc'. inversion Hc'; subst c'. rewrite hset_length. split; [lia | apply hget_hset_same; lia].
+  - cbn. split; [exact Hi | exact H0].
+Qed.
+
+Lemma irun_pure preload qs : forall st, iinv st -> irun add ifaithful preload F H st qs = map (ispec add F H) qs.
+Proof.
+  induction qs as [|q t IH]; intros st Hi; cbn; [reflexivity|].
+  pose proof (istep_inv preload st q Hi) as [Hi1 Hv].
+  destruct (istep add ifaithful preload F H st q) as [st1 v]. cbn in *. now rewrite Hv, IH.
+Qed.
+
+Lemma inversion_reads_pure preload qs : irun add ifaithful preload F H (ist0 F) qs = map (ispec add F H) qs.
+Proof. apply irun_pure, iinv0. Qed.
+End B.
+
+Definition vadd (a b : arr) : arr := map (fun xy => (fst xy + snd xy)%Z) (combine a b).
+(* without the copy.copy of the preloaded matrix the caller's preload is overwritten *)
+Lemma inversion_preload_alias_refuted :
+  irun vadd (mkIPolicy false true) true [1; 2]%Z [10; 10]%Z (ist0 [1; 2]%Z) [QFR; QPre]
+  <> map (ispec vadd [1; 2]%Z [10; 10]%Z) [QFR; QPre].
+Proof. vm_compute; discriminate. Qed.
+(* without `del self.__dict__["curvature_matrix"]` a later curvature_matrix read reports F + H *)
+Lemma inversion_entry_kept_refuted :
+  irun vadd (mkIPolicy true false) false [1; 2]%Z [10; 10]%Z (ist0 [1; 2]%Z) [QF; QFR; QF]
+  <> map (ispec vadd [1; 2]%Z [10; 10]%Z) [QF; QFR; QF].
+Proof. vm_compute; discriminate. Qed.
+
+(* ------------------------------------------------------------------ PART C *)
+Lemma rng_seeded_is_state_independent {S : Type} (init : Z -> S) (draw : S -> Z -> Z * S) (randint : S -> Z * S)
+      (g1 g2 : S) (seed : Z) (counts : arr) :
+  seed <> (-1)%Z -> poisson_noise init draw randint g1 seed counts = poisson_noise init draw randint g2 seed counts.
+Proof.
+  intros Hs. unfold poisson_noise, setup_random_seed. apply Z.eqb_neq in Hs. now rewrite Hs.
+Qed.
+Lemma rng_unseeded_depends_on_state :
+  fst (poisson_noise lcg_init lcg_draw lcg_randint 1%Z (-1)%Z [4; 4; 4]%Z)
+  <> fst (poisson_noise lcg_init lcg_draw lcg_randint 2%Z (-1)%Z [4; 4; 4]%Z).
+Proof. vm_compute; discriminate. Qed.
